@@ -31,6 +31,26 @@ GeoMeanRel(Mul(_, _), Same(_, _), layer, lower, upper) == Same(Mul(layer, layer)
 \* three consecutive levels of a log-spaced grid:  b^2 = a c
 LogSpacedRel(Mul(_, _), Same(_, _), a, b, c) == Same(Mul(b, b), Mul(a, c))
 
+\* ------------------------------------------- array / file pressure profiles
+\* An array (or file) pressure profile is handed the layer pressures in one of two orientations
+\* and a flag `reverse`; it exposes the input, reversed if asked to.  Only the two options that
+\* expose the layers surface first are inside the property's quantifier ("decreasing levels");
+\* for those the exposed layers are the oriented input, the n+1 levels decrease strictly and
+\* level k / k+1 bracket layer k (alignment of levels with layers).
+RevSeq(s) == [k \in 1..Len(s) |-> s[Len(s) + 1 - k]]
+Orientations == {"surface_first", "top_first"}
+ArrayInput(lay, orient) == IF orient = "top_first" THEN RevSeq(lay) ELSE lay
+Oriented(input, reverse) == IF reverse THEN RevSeq(input) ELSE input
+OptionAdmissible(orient, reverse) == (orient = "top_first") <=> reverse
+OptionSeq == <<[orient |-> "surface_first", reverse |-> FALSE], [orient |-> "top_first", reverse |-> TRUE]>>
+BracketRel(Lt(_, _), lev, lay) ==
+    /\ Len(lev) = Len(lay) + 1
+    /\ \A k \in 1..Len(lay) : Lt(lay[k], lev[k]) /\ Lt(lev[k + 1], lay[k])
+\* the exposed layers are the input in the declared orientation
+OrientedInputRel(Same(_, _), lay, input, reverse) ==
+    /\ Len(input) = Len(lay)
+    /\ \A k \in 1..Len(lay) : Same(lay[k], Oriented(input, reverse)[k])
+
 \* ------------------------------------------------------ hydrostatic step
 \* one layer: bottom altitude z0, top altitude z1, thickness dz, scale height H and gravity g
 \* evaluated at the bottom of the layer, layer temperature T and molecular weight mu,
